@@ -88,10 +88,36 @@ def sc_average(B, C, D, N, split):
     m, MP = make_gmm(B, C, D, "scalar", simplex=True)
     X = B.arr("x", (N, D))
     want = total([o_ll(B, MP, X[i]) for i in range(N)]) / N
-    stats = [gmm.e_step(X[:split], m), gmm.e_step(X[split:], m)] if split else [gmm.e_step(X, m)]
+    if split == "each":
+        stats = [gmm.e_step(X[i : i + 1], m) for i in range(N)]
+    else:
+        stats = [gmm.e_step(X[:split], m), gmm.e_step(X[split:], m)] if split else [gmm.e_step(X, m)]
     ret, avg = gmm.m_step(stats, m)
     o = Outcome()
     o.equal("average-is-mean-loglik-before-update", avg, want)
+    return o
+
+
+def sc_reduce(B, C, D, k):
+    """the M-step wrapper reduces a list of k statistics: each enters exactly once"""
+    gmm = B.mod("gmm")
+    m, MP = make_gmm(B, C, D, "scalar", simplex=True, update_means=True, update_variances=False, update_weights=True)
+    stats, n, F, t, ll = [], [0] * C, [[0] * D for _ in range(C)], 0, 0
+    for j in range(k):
+        s, SP = sym_stats(B, C, D, "s%d" % j, data_like=False)
+        stats.append(s)
+        for c in range(C):
+            B.assume(SP["n"][c] > 1e-3)
+            n[c] = n[c] + SP["n"][c]
+            for d in range(D):
+                F[c][d] = F[c][d] + SP["F"][c, d]
+        t = t + SP["t"]
+        ll = ll + s.log_likelihood
+    ret, avg = gmm.m_step(stats, m)
+    o = Outcome()
+    o.equal("average", avg, ll / t)
+    o.equal("means", m.means, [[F[c][d] / n[c] for d in range(D)] for c in range(C)])
+    o.equal("weights", m.weights, [n[c] / t for c in range(C)])
     return o
 
 
@@ -229,8 +255,13 @@ def job_mstep(P, C, D):
 
 
 def job_average(P, C, D, N):
-    for split in (0, 1):
-        P.run("average-split%d" % split, sc_average, dict(C=C, D=D, N=N, split=split), validate=1)
+    for split in (0, 1, "each"):
+        P.run("average-split%s" % split, sc_average, dict(C=C, D=D, N=N, split=split), validate=1)
+
+
+def job_reduce(P, C, D):
+    for k in (1, 2, 3, 5, 6):
+        P.run("reduce-%d" % k, sc_reduce, dict(C=C, D=D, k=k), validate=1)
 
 
 def job_loop(P, K, cap_kind, thr_kind, dask, isolated, policy):
@@ -242,6 +273,7 @@ def jobs(tier):
     for (C, D) in SIZES[tier]:
         out.append(("mstep@C%dD%d" % (C, D), "job_mstep", dict(C=C, D=D)))
     out.append(("average@C2D2N3", "job_average", dict(C=2, D=2, N=3)))
+    out.append(("reduce@C2D1", "job_reduce", dict(C=2, D=1)))
     K = LOOPK[tier]
     for cap_kind, thr_kind in (("sym", "sym"), ("sym", "none"), ("none", "sym")):
         out.append(("loop-numpy-%s-%s" % (cap_kind, thr_kind), "job_loop", dict(K=K, cap_kind=cap_kind, thr_kind=thr_kind, dask=False, isolated=False, policy="fifo")))
